@@ -35,7 +35,7 @@ func (c10) Plan(tier string) wk.Plan {
 	}
 }
 
-var c10dials = gen.Dials{MaxDepth: 5, Budget: 45, VarLeaf: 0.5, Bind: 0.35, Fault: 0.008}
+var c10dials = gen.Dials{MaxDepth: 5, Budget: 45, VarLeaf: 0.5, Bind: 0.35, Fault: 0.008, Collide: 0.02}
 
 func (c10) Run(c *wk.Case) {
 	vl := getPlainVlang()
@@ -52,6 +52,11 @@ func (c10) Run(c *wk.Case) {
 			pg.Declare(n, p.ArgTypes[i])
 		}
 		p.Root = pg.Gen(gen.TList(gen.TInt), 0, true)
+	}
+	if c.Index%4 == 1 {
+		p = c10ConstProgram(c.Rng)
+		nargs = len(p.ArgNames)
+		c.Count("constant_container_programs", 1)
 	}
 	src, ok := safeSource(p.Root, ref.PrintOpts{})
 	if !ok {
@@ -115,6 +120,7 @@ func (c10) Run(c *wk.Case) {
 		pd := pending[i]
 		pending = append(pending[:i], pending[i+1:]...)
 		got := bridge.Force(pd.v, pd.err)
+		got.FloatTol = regroupTol(g == vl.opt, src)
 		delayed++
 		if v, why := bridge.CompareOutcome(pd.pe.wv, pd.pe.we, pd.pe.rae, got); v == bridge.Disagree {
 			c.Violation("evaluation-depends-on-history", fmt.Sprintf("%q: result of the evaluation at step %d with %v, consumed at step %d after other evaluations: %s", src, pd.at, describeArgs(pd.pe.refArgs), step, why),
@@ -135,6 +141,7 @@ func (c10) Run(c *wk.Case) {
 			}
 			pe.used++
 			got := evalReal(f, pe.realArgs)
+			got.FloatTol = regroupTol(g == vl.opt, src)
 			v, why := bridge.CompareOutcome(pe.wv, pe.we, pe.rae, got)
 			c.Logf("step %d: eval tuple %v -> %s err=%v", step, describeArgs(pe.refArgs), bridge.Describe(got.Val), got.Err)
 			if v == bridge.Disagree {
@@ -196,6 +203,7 @@ func (c10) Run(c *wk.Case) {
 					continue
 				}
 				got := evalReal(fq, ra)
+				got.FloatTol = regroupTol(g == vl.opt, qsrc)
 				if v, why := bridge.CompareOutcome(wv, we, rae, got); v == bridge.Disagree {
 					c.Violation("evaluation-depends-on-history", fmt.Sprintf("second function %q (interleaved with %q) with %v: %s", qsrc, src, describeArgs(tu), why),
 						map[string]any{"src": qsrc, "other": src, "args": describeArgs(tu), "why": why})
@@ -223,4 +231,120 @@ func (c10) Run(c *wk.Case) {
 		c.NonTrivial(wk.Hash64(src))
 		c.Sample(map[string]any{"program": src, "history_steps": 40, "distinct_tuples": distinctTuples, "partial": partial, "failing": failing, "generates": gens})
 	}
+}
+
+// c10ConstProgram: a constant container (folded by the optimizer into one object shared by all evaluations of
+// the function, or bound by a let) is used by two operations that depend on the arguments, and its own string
+// form is part of the result: an operation that works in place on the shared object shows in a LATER evaluation.
+func c10ConstProgram(r interface{ IntN(int) int }) *gen.Program {
+	I := func(v int64) *ref.Node { return ref.Int(v) }
+	id := ref.Id
+	x, n, s := id("x"), id("n"), id("s")
+	clo := func(body *ref.Node, ps ...string) *ref.Node { return ref.Clo(ps, body) }
+	listConsts := []func() *ref.Node{
+		func() *ref.Node { return ref.ListN(I(1), I(2), I(3)) },
+		func() *ref.Node { return ref.ListN(I(3), I(1), I(2), I(2)) },
+		func() *ref.Node { return ref.ListN(I(5), I(4), I(3), I(2), I(1), I(0)) },
+		func() *ref.Node {
+			return ref.Method(ref.Static("numbers", I(5)), "map", clo(ref.Bin("-", I(7), ref.Bin("*", id("v"), I(2))), "v"))
+		},
+		func() *ref.Node { return ref.Method(ref.ListN(I(2), I(1)), "append", I(3)) },
+		func() *ref.Node { return ref.Bin("+", ref.ListN(I(1), I(2)), ref.ListN(I(3))) },
+	}
+	mapConsts := []func() *ref.Node{
+		func() *ref.Node { return ref.MapN([]string{"a", "b"}, []*ref.Node{I(1), I(2)}) },
+		func() *ref.Node {
+			return ref.Bin("+", ref.MapN([]string{"a", "b"}, []*ref.Node{I(1), I(2)}), ref.MapN([]string{"c"}, []*ref.Node{I(3)}))
+		},
+		func() *ref.Node {
+			return ref.Method(ref.MapN([]string{"a", "b", "c"}, []*ref.Node{I(1), I(2), I(3)}), "accept", clo(ref.Bin("!=", id("k"), ref.Str("b")), "k", "v"))
+		},
+		func() *ref.Node { return ref.Method(ref.MapN([]string{"a", "b"}, []*ref.Node{I(1), I(2)}), "eval") },
+		func() *ref.Node {
+			return ref.Method(ref.MapN([]string{"a"}, []*ref.Node{I(1)}), "put", ref.Str("z"), I(9))
+		},
+	}
+	c := id("c")
+	listOps := []func() *ref.Node{
+		func() *ref.Node { return ref.Bin("~", c, x) },
+		func() *ref.Node { return ref.Bin("~", x, c) },
+		func() *ref.Node { return ref.Bin("~", n, c) },
+		func() *ref.Node { return ref.Bin("+", c, x) },
+		func() *ref.Node { return ref.Bin("+", x, c) },
+		func() *ref.Node { return ref.Bin("=", c, x) },
+		func() *ref.Node { return ref.Method(c, "append", n) },
+		func() *ref.Node { return ref.Method(c, "set", ref.Bin("%", ref.Static("abs", n), I(3)), n) },
+		func() *ref.Node { return ref.Method(c, "reverse") },
+		func() *ref.Node { return ref.Method(c, "order", clo(ref.Bin("*", id("v"), n), "v")) },
+		func() *ref.Node { return ref.Method(c, "orderRev", clo(ref.Bin("*", id("v"), n), "v")) },
+		func() *ref.Node {
+			return ref.Method(c, "orderLess", clo(ref.Bin("<", ref.Bin("*", id("p"), n), ref.Bin("*", id("q"), n)), "p", "q"))
+		},
+		func() *ref.Node { return ref.Method(c, "map", clo(ref.Bin("+", id("v"), n), "v")) },
+		func() *ref.Node { return ref.Method(c, "accept", clo(ref.Bin("!=", id("v"), n), "v")) },
+		func() *ref.Node { return ref.Method(c, "top", n) },
+		func() *ref.Node { return ref.Method(c, "skip", n) },
+		func() *ref.Node { return ref.Method(c, "replaceList", clo(ref.Method(id("l"), "append", n), "l")) },
+		func() *ref.Node { return ref.Method(c, "cross", x, clo(ref.Bin("*", id("p"), id("q")), "p", "q")) },
+		func() *ref.Node { return ref.Method(c, "merge", x, clo(ref.Bin("<", id("p"), id("q")), "p", "q")) },
+		func() *ref.Node {
+			return ref.Method(c, "combine", clo(ref.Bin("+", ref.Bin("+", id("p"), id("q")), n), "p", "q"))
+		},
+		func() *ref.Node { return ref.Method(c, "combineN", I(2), clo(id("w"), "w")) },
+		func() *ref.Node { return ref.Method(c, "indexWhere", clo(ref.Bin("=", id("v"), n), "v")) },
+		func() *ref.Node {
+			return ref.Method(ref.Method(c, "number", clo(ref.Bin("+", id("i"), id("v")), "i", "v")), "sum")
+		},
+		func() *ref.Node { return ref.Method(c, "mapReduce", n, clo(ref.Bin("+", id("a"), id("v")), "a", "v")) },
+		func() *ref.Node { return ref.Index(c, ref.Bin("%", ref.Static("abs", n), I(3))) },
+		func() *ref.Node { return ref.Method(c, "minMax", clo(ref.Bin("*", id("v"), n), "v")) },
+		func() *ref.Node { return ref.Method(c, "movingWindow", clo(ref.Bin("+", id("v"), I(0)), "v")) },
+	}
+	mapOps := []func() *ref.Node{
+		func() *ref.Node { return ref.Method(c, "put", s, n) },
+		func() *ref.Node { return ref.Method(c, "put", ref.Str("q"), n) },
+		func() *ref.Node { return ref.Bin("+", c, ref.MapN([]string{"q"}, []*ref.Node{n})) },
+		func() *ref.Node { return ref.Bin("+", ref.MapN([]string{"q"}, []*ref.Node{n}), c) },
+		func() *ref.Node { return ref.Method(c, "replace", clo(ref.MapN([]string{"a"}, []*ref.Node{n}), "m")) },
+		func() *ref.Node { return ref.Method(c, "map", clo(ref.Bin("+", id("v"), n), "k", "v")) },
+		func() *ref.Node { return ref.Method(c, "accept", clo(ref.Bin("!=", id("v"), n), "k", "v")) },
+		func() *ref.Node { return ref.Method(c, "get", s) },
+		func() *ref.Node { return ref.Method(c, "isAvail", s) },
+		func() *ref.Node { return ref.Bin("~", s, c) },
+		func() *ref.Node { return ref.Method(c, "list") },
+		func() *ref.Node { return ref.Method(c, "size") },
+		func() *ref.Node { return ref.Bin("=", c, ref.MapN([]string{"a", "b"}, []*ref.Node{n, I(2)})) },
+	}
+	var cst *ref.Node
+	var ops []func() *ref.Node
+	if r.IntN(3) == 0 {
+		cst, ops = mapConsts[r.IntN(len(mapConsts))](), mapOps
+	} else {
+		cst, ops = listConsts[r.IntN(len(listConsts))](), listOps
+	}
+	guard := func(e *ref.Node) *ref.Node { return ref.Try(e, ref.Str("failed")) }
+	items := []*ref.Node{guard(ops[r.IntN(len(ops))]()), ref.Method(c, "string"), guard(ops[r.IntN(len(ops))]()), ref.Method(c, "string")}
+	var root *ref.Node
+	if r.IntN(2) == 0 {
+		root = ref.Let("c", cst, ref.ListN(items...))
+	} else {
+		// without the let: the literal itself is the (folded) constant
+		sub := func(n *ref.Node) {
+			n.Walk(func(y *ref.Node) {
+				for _, ch := range []**ref.Node{&y.X, &y.Y, &y.Z} {
+					if *ch != nil && (*ch).K == ref.KIdent && (*ch).Name == "c" {
+						*ch = cst.Clone()
+					}
+				}
+				for i := range y.Args {
+					if y.Args[i] != nil && y.Args[i].K == ref.KIdent && y.Args[i].Name == "c" {
+						y.Args[i] = cst.Clone()
+					}
+				}
+			})
+		}
+		root = ref.ListN(items[0], items[2])
+		sub(root)
+	}
+	return &gen.Program{Root: root, ArgNames: []string{"x", "n", "s"}, ArgTypes: []*gen.Ty{gen.TList(gen.TInt), gen.TInt, gen.TStr}}
 }
